@@ -849,11 +849,33 @@ MATCHERS = {
 }
 
 
+def what_class(what):
+    """the kind of failure a judge reports, without the case-specific details"""
+    return re.sub(r'\d+', 'N', what.split('(')[0].split('[')[0]).strip()[:80]
+
+
+def symptom(i, what):
+    """what was observed: the kind of failure, the outcome class of the call, whether the body ran"""
+    return [what_class(what), i.get('out'), bool(i.get('journal'))]
+
+
+def symptom_registered(sym, registered):
+    """registered: [kind of failure, outcome class or '*' (the outcome is the body's business), body ran]"""
+    return any(r[0] == sym[0] and r[2] == sym[2] and r[1] in ('*', sym[1]) for r in registered or [])
+
+
 def matcher(finding, case):
+    """a violation is covered by an open known finding only if
+       (a) the MODEL reproduces the implementation on this very case (the finding is: the code does what the faithful model
+           says, and that violates the property) - anything the model does not predict is a fresh violation,
+       (b) the callable / call has the shape of the finding, and
+       (c) the observed symptom (kind of failure, outcome class) is one of those registered with the finding"""
     m = finding.get('matcher') or {}
     pred = MATCHERS.get(m.get('id'))
     fn = case.get('_fn')
-    return bool(pred and fn and pred(case, fn))
+    if not (pred and fn and case.get('_agrees')):
+        return False
+    return bool(pred(case, fn)) and symptom_registered(case.get('_sym'), m.get('symptoms'))
 
 
 # ------------------------------------------------------------------------------------------ the check
@@ -896,7 +918,7 @@ def reductions(c):
     """single-step structural reductions of a case (drop a parameter, a keyword, a positional value, simplify the return
     annotation / the text / the generator script)"""
     out = []
-    base = {k: v for k, v in c.items() if k != '_fn'}
+    base = {k: v for k, v in c.items() if not k.startswith('_')}
     for i, p in enumerate(base['params']):
         d = copy.deepcopy(base)
         d['params'].pop(i)
@@ -956,7 +978,11 @@ def shrink_first(ck, judge, rounds=4):
         for c, i, m in res:
             if i and m and 'fn' in i:
                 w = judge(c, i, m)
-                cc = dict(c, _fn=i['fn'])
+                try:
+                    agrees = judge_corr(c, i, m) is None
+                except Exception:      # noqa
+                    agrees = False
+                cc = dict(c, _fn=i['fn'], _sym=symptom(i, w) if w else None, _agrees=agrees)
                 if w and re.sub(r'\d+', 'N', w)[:60] == klass and not any(f['status'] == 'open' and matcher(f, cc) for f in ck.findings):
                     ok.append((size_of(c), cc, w, i, m))
         if not ok:
@@ -983,7 +1009,8 @@ def run(pid, props, tier, seed, replay=None):
     ck.replay_known_findings(still_fails)
     cases = gen_cases(ck.rng, tier, ck.scale()) if (replay is None or 'case' not in replay) else [replay['case']]
     for c in cases:
-        c.pop('_fn', None)
+        for key in ('_fn', '_sym', '_agrees'):
+            c.pop(key, None)
     results = evaluate(ck, cases)
     hist, disagreements = {}, []
 
@@ -1025,9 +1052,11 @@ def run(pid, props, tier, seed, replay=None):
         except Exception as ex:      # noqa
             corr = f'outcome of an unexpected shape ({type(ex).__name__}: {ex})'
         if what:
-            cc = dict(c, _fn=i['fn'])
+            cc = dict(c, _fn=i['fn'], _sym=symptom(i, what), _agrees=(corr is None))
             ck.violation(what, cc, stream='pedantic/' + c['stream'], extra={'impl': {k: v for k, v in i.items() if k != 'fn'}, 'model': m},
                          matcher=matcher)
+            if corr:
+                disagreements.append({'case': c, 'what': corr, 'impl': i})
         elif corr:
             disagreements.append({'case': c, 'what': corr, 'impl': i})
         else:
